@@ -15,7 +15,7 @@ RULE = ("seeded random class families in one generated module (4-8 classes: root
         "ill-typed init_args), short forms (name only, init_args without class_path, bare dict, dotted "
         "--x.k / --x.init_args.k / nested --x.p.k / --x.dict_kwargs.k) each run together with its explicit twin, "
         "class changes between argv items (top level and nested, a quarter of them with dict_kwargs on both sides), "
-        "argument defaults, parse_object channel; plus 23 hand-made cases in every run (dotted null two levels down, "
+        "argument defaults, parse_object channel; plus 35 hand-made cases in every run (dotted null two levels down, "
         "functions with related/unrelated return type, same-named parameter of another type across a class change, "
         "dict_kwargs naming a parameter, abstract declared type, two-level nested construction); "
         "non-trivial = accepted with >=1 explicit init_arg or >=2 steps, or rejected for a reason other than a missing "
@@ -73,7 +73,7 @@ META = {
                  "vm_compute witnesses; randomized correspondence on generated class families judged in Coq",
 }
 
-PNAMES = ["a", "b", "c", "d", "e", "n", "m"]
+PNAMES = ["a", "b", "c", "d", "e", "n", "m", "ab"]  # "a" is a string prefix of "ab"
 STRS = ["abc", "xy", "foo", "bar", "q"]
 CNAMES = ["Base", "Alpha", "Beta", "Gamma", "Delta", "Eps", "Zeta", "Eta", "Theta"]
 
@@ -400,15 +400,130 @@ def _int_meets_str(fam, steps, dflt):
         return False
 
     for st in steps:
-        if walk(st["nested"][-1] if "nested" in st else None, st["raw"]):
+        if "cfg" in st:
+            if any(walk(None, v) for _, v in st["cfg"]):
+                return True
+        elif walk(st["nested"][-1] if "nested" in st else None, st["raw"]):
             return True
     return dflt is not None and walk(None, dflt)
+
+
+def sub_family(fam, n1, mod):
+    """the family as it was when only its first n1 classes (and the functions returning one of them) existed"""
+    cl = fam["classes"][:n1]
+    names = {k["name"] for k in cl}
+    return {"mod": mod, "classes": cl, "funcs": [f for f in fam["funcs"] if f["ret"] in names], "consts": fam["consts"]}
+
+
+def _gen_history_case(rng, fam, tag):
+    """A class family that grows while the program runs: the module first holds the first n1 classes, a parse that names a
+    class by its bare name runs (warm-up), then the remaining classes are defined in the module (a plugin is loaded), then
+    the case proper runs against the whole family - in one process. The module gets a name of its own."""
+    n = len(fam["classes"])
+    mod = "%sh%s" % (fam["mod"], tag)
+    full = dict(fam, mod=mod)
+    n1 = rng.randint(1, n - 1)
+    first = sub_family(full, n1, mod)
+    old = [k["name"] for k in first["classes"]]
+    new = [k["name"] for k in full["classes"][n1:]]
+    # a declared type that exists from the start and, if possible, gets a subclass later
+    growing = [b for b in old if any(is_sub(full, c, b) for c in new)]
+    base = rng.choice(growing or old)
+    warm = _gen_case(rng, first, base)
+    subs = [k["name"] for k in first["classes"] if is_sub(first, k["name"], base) and not k["abstract"]]
+    bare = {"raw": {"s": rng.choice(subs or ["Nope"])}}
+    wsteps = [bare] if warm["channel"] != "argv" or rng.random() < 0.5 else [bare] + warm["steps"]
+    c = None
+    for attempt in range(6):
+        c = _gen_case(rng, full, base)
+        txt = json.dumps(c["steps"])
+        if c["channel"] == "argv" and any('"%s"' % nm in txt or '.%s"' % nm in txt for nm in new):
+            break
+    c["channel"] = "argv"
+    c["twin"] = _twin(c)
+    c["warm"] = {"fam": first, "base": base, "dflt": None, "steps": wsteps}
+    return c
+
+
+OPT_NAMES = [["x", "x_ema"], ["x", "x2"], ["x_ema", "x"], ["x", "y"], ["x", "x_ema", "y"], ["xa", "x", "xab"]]
+
+
+def _gen_multi_case(rng, fam):
+    """A parser with several class-typed options (names may be string prefixes of each other) fed by config sources that are
+    merged one after the other (--cfg A --cfg B: ActionConfigFile + merge_config), optionally mixed with plain argv items."""
+    names = [k["name"] for k in fam["classes"]]
+    onames = rng.choice(OPT_NAMES)
+    b0 = rng.choice(names)
+    opts = [{"name": o, "base": b0 if rng.random() < 0.6 else rng.choice(names), "dflt": None} for o in onames]
+    cur = {}
+    argv = []
+    for si in range(rng.randint(2, 3)):
+        entry = []
+        for o in opts:
+            if si > 0 and rng.random() > 0.8:
+                continue
+            prev = cur.get(o["name"])
+            r = rng.random()
+            if prev is None or r < 0.65:
+                t = gen_tree(rng, fam, o["base"], clean=rng.random() < 0.85)
+                cur[o["name"]] = t
+                entry.append([o["name"], tree_raw(rng, t, 0.4)])
+            else:
+                ps = [p for p in params_of_path(fam, prev["cp"]) if p["ty"][0] in ("int", "str")]
+                if not ps:
+                    entry.append([o["name"], {"d": [["class_path", {"s": prev["cp"]}]]}])
+                    continue
+                p = rng.choice(ps)
+                kv = [[p["name"], gen_leaf(rng, p["ty"], True)]]
+                entry.append([o["name"], {"d": [["init_args", {"d": kv}]]} if r < 0.85 else {"d": kv}])
+        if entry:
+            argv.append({"cfg": entry})
+        if rng.random() < 0.3:
+            o = rng.choice(opts)
+            prev = cur.get(o["name"])
+            ps = [p for p in params_of_path(fam, prev["cp"]) if p["ty"][0] in ("int", "str")] if prev else []
+            if ps:
+                p = rng.choice(ps)
+                argv.append({"opt": o["name"], "nested": [p["name"]], "raw": gen_leaf(rng, p["ty"], True)})
+    return multi_case(fam, opts, argv)
+
+
+def project(argv, name, first):
+    """the items of a multi-option argv that address option `name`, as single-option steps"""
+    out = []
+    for st in argv:
+        if "cfg" in st:
+            out += [{"raw": v} for k, v in st["cfg"] if k == name]
+        elif st.get("opt", first) == name:
+            out.append({k: v for k, v in st.items() if k != "opt"})
+    return out
+
+
+def multi_case(fam, opts, argv):
+    first = opts[0]["name"]
+    return {"fam": fam, "base": opts[0]["base"], "dflt": opts[0]["dflt"], "steps": project(argv, first, first),
+            "channel": "multi", "twin": None, "multi": {"opts": opts, "argv": argv}}
 
 
 def gen_cases_for_family(rng, fam, ncases):
     cases = []
     for j in range(ncases):
+        special = None
+        if j >= ncases - 4:
+            special = "multi" if j % 2 == 0 else "history"
         for attempt in range(8):
+            if special == "multi":
+                c = _gen_multi_case(rng, fam)
+                bad = _int_meets_str(fam, c["multi"]["argv"], None) or any(
+                    not project(c["multi"]["argv"], o["name"], c["multi"]["opts"][0]["name"]) for o in c["multi"]["opts"])
+                if not bad:
+                    break
+                continue
+            if special == "history":
+                c = _gen_history_case(rng, fam, j)
+                if not _int_meets_str(fam, c["steps"] + c["warm"]["steps"], c["dflt"]):
+                    break
+                continue
             c = _gen_case(rng, fam)
             if not _int_meets_str(fam, c["steps"], c["dflt"]):
                 break
@@ -419,10 +534,10 @@ def gen_cases_for_family(rng, fam, ncases):
     return cases
 
 
-def _gen_case(rng, fam):
+def _gen_case(rng, fam, base=None):
     names = [k["name"] for k in fam["classes"]]
     if True:
-        base = rng.choice(names)
+        base = base or rng.choice(names)
         kind = rng.choice(["explicit", "explicit", "short", "short", "steps", "steps", "steps", "change", "change",
                            "change", "object", "default"])
         dflt = None
@@ -554,6 +669,40 @@ def fixed_cases():
     add(f, "Root", [{"raw": D(("class_path", S("jvfix3.Root")), ("init_args", D(("p", pair(1, 1)), ("q", pair(1, 1)))))}])
     add(f, "Root", [{"nested": ["p"], "raw": S("Pair")}, {"nested": ["p", "l"], "raw": S("Leaf")},
                     {"nested": ["p", "r"], "raw": S("Leaf")}, {"nested": ["p", "r", "n"], "raw": I(3)}])
+    # several class-typed options whose names are prefixes of each other, two merged config sources, class change in the second
+    f = {"mod": "jvfix2", "funcs": [], "consts": ["K0"], "classes": [k for k in out[10]["fam"]["classes"]]}
+    A = lambda **kw: D(("class_path", S("jvfix2.A")), ("init_args", D(*[(k, I(v)) for k, v in kw.items()])))  # noqa: E731
+    Cc = D(("class_path", S("jvfix2.C")), ("init_args", D(("c", I(1)))))
+    for names in (["x", "x_ema"], ["x_ema", "x"], ["x", "x2", "y"]):
+        opts = [{"name": o, "base": "Base", "dflt": None} for o in names]
+        first = {"cfg": [[o, A(a=5 + i, c=7 + i)] for i, o in enumerate(names)]}
+        second = {"cfg": [[o, (Cc if o != "x" else A(c=9))] for o in names]}
+        out.append(multi_case(f, opts, [first, second]))
+        out.append(multi_case(f, opts, [first, {"opt": names[-1], "nested": ["c"], "raw": I(2)}, second]))
+    # class-typed parameters whose names are prefixes of each other, class change of the longer-named one
+    f = {"mod": "jvfix5", "funcs": [], "consts": ["K0"], "classes": [
+        _K("Leaf", [], [_P("n", ["int"], I(1))]), _K("Leaf2", ["Leaf"], [_P("k", ["int"], I(2))]),
+        _K("Leaf3", ["Leaf"], [_P("h", ["int"], I(3))]),
+        _K("Holder", [], [_P("a", ["opt", "Leaf"], N), _P("ab", ["opt", "Leaf"], N)])]}
+    L2 = lambda k: D(("class_path", S("jvfix5.Leaf2")), ("init_args", D(("k", I(k)))))  # noqa: E731
+    L3 = D(("class_path", S("jvfix5.Leaf3")), ("init_args", D(("h", I(6)))))
+    H = lambda a, ab: D(("class_path", S("jvfix5.Holder")), ("init_args", D(("a", a), ("ab", ab))))  # noqa: E731
+    add(f, "Holder", [{"raw": H(L2(5), L2(7))}, {"raw": H(L2(8), L3)}])
+    add(f, "Holder", [{"raw": H(L2(5), L2(7))}, {"nested": ["ab"], "raw": L3}, {"nested": ["a"], "raw": L3}])
+    out.append(multi_case(f, [{"name": "x", "base": "Holder", "dflt": None}],
+                          [{"cfg": [["x", H(L2(5), L2(7))]]}, {"cfg": [["x", H(L2(8), L3)]]}]))
+    # a family that grows while the program runs: bare names of classes defined after the first name resolution
+    f = {"mod": "jvfix6", "funcs": [], "consts": ["K0"], "classes": [
+        _K("Base", [], [_P("a", ["int"], I(1))]), _K("Early", ["Base"], [_P("b", ["int"], I(2))]),
+        _K("Late", ["Base"], [_P("c", ["int"], I(3))]), _K("Later", ["Late"], [_P("d", ["int"], I(4))], abstract=True)]}
+    for wname, msteps in (("Early", [{"raw": S("Late")}, {"nested": ["c"], "raw": I(9)}]),
+                          ("Nope", [{"raw": D(("class_path", S("Late")), ("init_args", D(("c", I(8)))))}]),
+                          ("Base", [{"raw": S("Later")}])):
+        c = {"fam": f, "base": "Base", "dflt": None, "steps": msteps, "channel": "argv", "twin": None}
+        c["fam"] = dict(f, mod="jvfix6" + wname.lower())
+        c["twin"] = _twin(c)
+        c["warm"] = {"fam": sub_family(c["fam"], 2, c["fam"]["mod"]), "base": "Base", "dflt": None, "steps": [{"raw": S(wname)}]}
+        out.append(c)
     return out
 
 
@@ -582,7 +731,7 @@ def observe(cases):
         for gi, idxs in enumerate(mine):
             fam = dict(cases[idxs[0]]["fam"])
             fam["mod"] = "%s_%d_%d" % (cases[idxs[0]]["fam"]["mod"], w, gi) if False else fam["mod"]
-            batches.append({"fam": fam, "cases": [{k: cases[i][k] for k in ("base", "dflt", "steps", "channel", "twin")} for i in idxs]})
+            batches.append({"fam": fam, "cases": [{k: cases[i].get(k) for k in ("base", "dflt", "steps", "channel", "twin", "warm", "multi")} for i in idxs]})
         payloads.append({"batches": batches})
         index.append(mine)
     res = run_impl_parallel("c14_classes.py", payloads, timeout=1500)
@@ -725,10 +874,19 @@ def term(case, obs):
     twin = "None"
     if case.get("twin") is not None:
         twin = "(Some (%s, %s))" % (g_list([g_input(s) for s in case["twin"]], "input"), g_obs(obs["twin"]))
-    return "{| k_fam := %s; k_base := %s; k_dflt := %s; k_steps := %s; k_obs := %s; k_twin := %s; k_object := %s |}" % (
+    sibs = []
+    if case.get("multi"):
+        m = case["multi"]
+        for o, ob in zip(m["opts"][1:], obs.get("sibs") or [None] * len(m["opts"])):
+            sibs.append("{| s_base := %s; s_dflt := %s; s_steps := %s; s_obs := %s |}" % (
+                g_str(o["base"]), g_opt(g_value(o["dflt"]) if o["dflt"] is not None else None),
+                g_list([g_input(x) for x in project(m["argv"], o["name"], m["opts"][0]["name"])], "input"), g_obs(ob)))
+    return ("{| k_fam := %s; k_base := %s; k_dflt := %s; k_steps := %s; k_obs := %s; k_twin := %s; k_object := %s; "
+            "k_sibs := %s |}") % (
         g_family(case["fam"]), g_str(case["base"]),
         g_opt(g_value(case["dflt"]) if case["dflt"] is not None else None),
-        g_list([g_input(s) for s in case["steps"]], "input"), g_obs(obs["main"]), twin, g_bool(case["channel"] == "object"))
+        g_list([g_input(s) for s in case["steps"]], "input"), g_obs(obs["main"]), twin,
+        g_bool(case["channel"] in ("object", "multi")), g_list(sibs, "part"))
 
 
 # ------------------------------------------------------------------------------------------------
@@ -759,11 +917,14 @@ def nontrivial_key(case, obs):
         txt = json.dumps(case["steps"])
         if "Nope" in txt or "nomod" in txt:
             return None
-    return json.dumps([case["fam"], case["base"], case["dflt"], case["steps"], o], sort_keys=True)
+    return json.dumps([case["fam"], case["base"], case["dflt"], case["steps"], o, case.get("multi"),
+                       (case.get("warm") or {}).get("steps")], sort_keys=True)
 
 
 def category(case, obs):
-    shape = "object" if case["channel"] == "object" else ("default+" if case["dflt"] else "") + (
+    shape = "object" if case["channel"] == "object" else (
+        "%d options/%d config sources" % (len(case["multi"]["opts"]), sum(1 for x in case["multi"]["argv"] if "cfg" in x))
+    ) if case.get("multi") else ("grown family/" if case.get("warm") else "") + ("default+" if case["dflt"] else "") + (
         "1 step" if len(case["steps"]) == 1 else "%s steps" % ("2-3" if len(case["steps"]) <= 3 else ">=4"))
     return "%s/%s%s" % (shape, _kind(obs["main"]), "/twin" if case.get("twin") is not None else "")
 
@@ -775,7 +936,20 @@ def describe(case, obs):
 
     d = {"module_source": module_source(case["fam"]), "declared_type": case["base"],
          "default": py_value(case["dflt"]) if case["dflt"] else None, "observed": obs["main"]}
-    if case["channel"] == "object":
+    if case.get("warm"):
+        w = case["warm"]
+        d["history"] = {"1. module as first loaded": module_source(w["fam"]),
+                        "2. earlier parse in the same process (declared type %s)" % w["base"]: argv_of(w["steps"]),
+                        "2. observed": obs.get("warm"),
+                        "3. then defined in the module (plugin loaded)": [k["name"] for k in case["fam"]["classes"]
+                                                                          if k["name"] not in {q["name"] for q in w["fam"]["classes"]}],
+                        "4. then the parse below": "module_source shows the module after step 3"}
+    if case.get("multi"):
+        m = case["multi"]
+        d["options"] = [{"--" + o["name"]: "type=" + o["base"], "default": py_value(o["dflt"]) if o["dflt"] else None} for o in m["opts"]]
+        d["argv"] = argv_of(m["argv"], m["opts"][0]["name"])
+        d["observed_per_option"] = dict(zip([o["name"] for o in m["opts"]], [obs["main"]] + list(obs.get("sibs") or [])))
+    elif case["channel"] == "object":
         d["parse_object"] = {"x": py_value(case["steps"][0]["raw"])}
     else:
         d["argv"] = argv_of(case["steps"])
@@ -786,6 +960,37 @@ def describe(case, obs):
 
 
 def shrink(case):
+    if case.get("multi"):
+        m = case["multi"]
+        for i in range(len(m["argv"])):
+            if len(m["argv"]) > 1:
+                a2 = m["argv"][:i] + m["argv"][i + 1:]
+                if all(project(a2, o["name"], m["opts"][0]["name"]) for o in m["opts"]):
+                    yield multi_case(case["fam"], m["opts"], a2)
+        if len(m["opts"]) > 2:
+            for j in range(len(m["opts"])):
+                o2 = m["opts"][:j] + m["opts"][j + 1:]
+                keep = {o["name"] for o in o2}
+                a2 = []
+                for st_ in m["argv"]:
+                    if "cfg" in st_:
+                        e = [kv for kv in st_["cfg"] if kv[0] in keep]
+                        if e:
+                            a2.append({"cfg": e})
+                    elif st_.get("opt", m["opts"][0]["name"]) in keep:
+                        a2.append(dict(st_, opt=st_.get("opt", m["opts"][0]["name"])))
+                if a2 and all(project(a2, o["name"], o2[0]["name"]) for o in o2):
+                    yield multi_case(case["fam"], o2, a2)
+        return
+    for c in _shrink_single(case):
+        if case.get("warm"):
+            c["warm"] = case["warm"]
+        yield c
+    if case.get("warm") and len(case["warm"]["steps"]) > 1:
+        yield dict(case, warm=dict(case["warm"], steps=case["warm"]["steps"][:1]))
+
+
+def _shrink_single(case):
     st = case["steps"]
     for i in range(len(st)):
         if len(st) > 1:
